@@ -102,6 +102,7 @@ var outlines = []outline{
 	{"point-cancelled-by-translation", []geomref.Cmd{mv(-100, 50)}},
 	{"closepath-first", []geomref.Cmd{cl(), mv(5, 5), ln(6, 7)}},
 	{"closepath-only", []geomref.Cmd{cl()}},
+	{"ends-with-a-moveto-outside-the-rest", []geomref.Cmd{mv(10, 20), ln(110, 220), cl(), mv(300, -50)}},
 	// thorough only from here
 	{"single-point", []geomref.Cmd{mv(10, 20)}},
 	{"curve-controls-outside-offset", []geomref.Cmd{mv(100, 100), cv(100, 500, 300, 500, 300, 100), ln(100, 100), cl()}},
@@ -111,7 +112,7 @@ var outlines = []outline{
 	{"all-points-at-origin", []geomref.Cmd{mv(0, 0), ln(0, 0), cl()}},
 }
 
-const quickOutlines = 11
+const quickOutlines = 12
 
 func applyOutline(g *type1.Glyph, o outline) {
 	for _, c := range o.cmds {
@@ -669,8 +670,8 @@ func rectBody(rects [][4]int) func(c *mc.Ctx, item int) mc.Verdict {
 
 func families(tier string) []mc.Family {
 	// budgets per family: they sum to 45 s (quick) / 9.5 min (thorough)
-	nOut, nMat, nRot := quickOutlines, quickMatrices, 2
-	budgets := []time.Duration{6 * time.Second, 45 * time.Second, 6 * time.Second, 10 * time.Second, 3 * time.Second}
+	nOut, nMat, nRot := quickOutlines, quickMatrices, 1
+	budgets := []time.Duration{6 * time.Second, 60 * time.Second, 6 * time.Second, 10 * time.Second, 3 * time.Second}
 	if tier == "thorough" {
 		nOut, nMat, nRot = len(outlines), len(matrices), 1
 		budgets = []time.Duration{20 * time.Second, 480 * time.Second, 20 * time.Second, 40 * time.Second, 10 * time.Second}
